@@ -270,12 +270,6 @@ Lemma iterated_weights_sum_l ref a msh : sumf snd ref = Q2Qc (2 # 1) ->
 Proof. intros H. rewrite cells_weights by exact H. apply cells_telescope. Qed.
 
 (* exactness on monomials (with a defect) extends to polynomials by linearity *)
-Fixpoint peval (c : list Qc) (x : Qc) : Qc :=
-  match c with [] => 0 | a :: c' => a + x * peval c' x end.
-Fixpoint pint (k : nat) (c : list Qc) : Qc :=      (* sum_i c_i * int x^(k+i) *)
-  match c with [] => 0 | a :: c' => a * moment_exact k + pint (S k) c' end.
-Fixpoint l1norm (c : list Qc) : Qc := match c with [] => 0 | a :: c' => Qcabs a + l1norm c' end.
-
 Lemma quad_poly_defect_l r eps : forall c k,
   (forall i, (k <= i < k + length c)%nat -> Qcabs (rule_moment r i - moment_exact i) <= eps) ->
   Qcabs (sumf (fun xw => snd xw * (qpow (fst xw) k * peval c (fst xw))) r - pint k c) <= eps * l1norm c.
@@ -303,3 +297,251 @@ Proof.
       apply Qcmult_le_compat_r; [|apply Qcabs_nonneg]. apply H. cbn [length]. lia.
     + apply IH. intros i Hi. apply H. cbn [length]. lia.
 Qed.
+
+(* ------------------------------------------------------------------ *)
+(* Part B.  index arithmetic of the 1D assemblers *)
+
+Lemma qeqb_false_iff a b : qeqb a b = false <-> a <> b.
+Proof.
+  split.
+  - intros H E. apply qeqb_iff in E. congruence.
+  - intros H. destruct (qeqb a b) eqn:E; [|reflexivity]. apply qeqb_iff in E. contradiction.
+Qed.
+
+Lemma sif_cons off a b t : span_indices_from off (a :: b :: t) =
+  if qeqb a b then span_indices_from (S off) (b :: t) else off :: span_indices_from (S off) (b :: t).
+Proof. reflexivity. Qed.
+Lemma mesh_cons a b t : mesh (a :: b :: t) = if qeqb a b then mesh (b :: t) else a :: mesh (b :: t).
+Proof. reflexivity. Qed.
+
+Lemma mesh_head a t d : nth 0 (mesh (a :: t)) d = a.
+Proof.
+  revert a. induction t as [|b t IH]; intros a; [reflexivity|].
+  rewrite mesh_cons. destruct (qeqb a b) eqn:E.
+  - apply qeqb_iff in E. subst b. apply IH.
+  - reflexivity.
+Qed.
+
+Lemma span_indices_from_ge off kv : forall s, In s (span_indices_from off kv) -> (off <= s)%nat.
+Proof.
+  revert off. induction kv as [|a t IH]; intros off s H; [contradiction|].
+  destruct t as [|b t']; [contradiction|].
+  rewrite sif_cons in H. destruct (qeqb a b).
+  - apply IH in H. lia.
+  - destruct H as [H|H]; [lia|]. apply IH in H. lia.
+Qed.
+
+(* the k-th mesh cell is the k-th non-empty knot span: mesh[k] = kv[s_k], mesh[k+1] = kv[s_k+1] *)
+Lemma mesh_span_l : forall kv off k,
+  (k < length (span_indices_from off kv))%nat ->
+  let s := (nth k (span_indices_from off kv) 0 - off)%nat in
+  nth k (mesh kv) 0 = nth s kv 0 /\ nth (S k) (mesh kv) 0 = nth (S s) kv 0 /\
+  nth s kv 0 <> nth (S s) kv 0 /\ (S s < length kv)%nat /\ (off <= nth k (span_indices_from off kv) 0)%nat.
+Proof.
+  induction kv as [|a t IH]; intros off k Hk; [cbn in Hk; lia|].
+  destruct t as [|b t']; [cbn in Hk; lia|].
+  cbn zeta. rewrite sif_cons in *. rewrite mesh_cons. destruct (qeqb a b) eqn:E.
+  - specialize (IH (S off) k Hk). cbn zeta in IH. destruct IH as [H1 [H2 [H3 [H4 H5]]]].
+    set (s' := nth k (span_indices_from (S off) (b :: t')) 0%nat) in *.
+    replace (s' - off)%nat with (S (s' - S off)) by lia.
+    cbn zeta. repeat split; try assumption; try lia.
+    cbn [length] in *. lia.
+  - destruct k as [|k].
+    + cbn [nth]. rewrite Nat.sub_diag. cbn [nth]. rewrite mesh_head.
+      apply qeqb_false_iff in E. repeat split; auto. cbn [length]. lia.
+    + cbn [nth]. cbn [length] in Hk. apply Nat.succ_lt_mono in Hk.
+      specialize (IH (S off) k Hk). cbn zeta in IH. destruct IH as [H1 [H2 [H3 [H4 H5]]]].
+      set (s' := nth k (span_indices_from (S off) (b :: t')) 0%nat) in *.
+      replace (s' - off)%nat with (S (s' - S off)) by lia.
+      repeat split; try assumption; try lia.
+      cbn [length] in *. lia.
+Qed.
+
+Lemma length_mesh_spans : forall kv off, kv <> [] -> length (mesh kv) = S (length (span_indices_from off kv)).
+Proof.
+  induction kv as [|a t IH]; intros off H; [contradiction|].
+  destruct t as [|b t']; [reflexivity|].
+  rewrite mesh_cons, sif_cons. destruct (qeqb a b).
+  - apply IH. discriminate.
+  - cbn [length]. f_equal. apply IH. discriminate.
+Qed.
+
+Lemma cells_nth : forall m k, (S k < length m)%nat -> nth k (cells m) (0, 0) = (nth k m 0, nth (S k) m 0).
+Proof.
+  induction m as [|a t IH]; intros k H; [cbn in H; lia|].
+  destruct t as [|b t']; [cbn in H; lia|].
+  change (cells (a :: b :: t')) with ((a, b) :: cells (b :: t')).
+  destruct k as [|k]; [reflexivity|].
+  cbn [nth]. rewrite IH; [reflexivity|]. cbn [length] in *. lia.
+Qed.
+
+(* order facts in Qc *)
+Lemma Qcmult_pos (a b : Qc) : 0 < a -> 0 < b -> 0 < a * b.
+Proof. intros Ha Hb. replace 0 with (0 * b) by ring. apply Qcmult_lt_compat_r; assumption. Qed.
+
+Lemma half_pos : 0 < half.
+Proof. unfold half. apply Qclt_alt. reflexivity. Qed.
+
+Lemma half_half : half + half = 1.
+Proof. apply Qc_is_canon. reflexivity. Qed.
+
+Lemma Qclt_sub_pos (a b : Qc) : a < b <-> 0 < b - a.
+Proof. rewrite (Qclt_minus_iff a b). unfold Qcminus. reflexivity. Qed.
+
+(* a Gauss node of the cell (a,b) lies strictly inside it when the reference node is in (-1,1) *)
+Lemma node_inside (a b xi : Qc) : a < b -> - (1) < xi -> xi < 1 ->
+  let x := half * (b - a) * xi + half * (a + b) in a < x /\ x < b.
+Proof.
+  intros Hab H1 H2 x. unfold x. split.
+  - apply Qclt_sub_pos.
+    replace (half * (b - a) * xi + half * (a + b) - a)
+      with (half * (b - a) * (xi - - (1)) + ((half + half) - 1) * a) by ring.
+    rewrite half_half. replace (half * (b - a) * (xi - - (1)) + (1 - 1) * a) with (half * (b - a) * (xi - - (1))) by ring.
+    apply Qcmult_pos; [apply Qcmult_pos; [apply half_pos|apply Qclt_sub_pos in Hab; exact Hab]|].
+    apply Qclt_sub_pos in H1. exact H1.
+  - apply Qclt_sub_pos.
+    replace (b - (half * (b - a) * xi + half * (a + b)))
+      with (half * (b - a) * (1 - xi) + (1 - (half + half)) * b) by ring.
+    rewrite half_half. replace (half * (b - a) * (1 - xi) + (1 - 1) * b) with (half * (b - a) * (1 - xi)) by ring.
+    apply Qcmult_pos; [apply Qcmult_pos; [apply half_pos|apply Qclt_sub_pos in Hab; exact Hab]|].
+    apply Qclt_sub_pos in H2. exact H2.
+Qed.
+
+(* every node of the rule on a cell inside the knot span s is evaluated in span s *)
+Lemma findspan_in_cell kv p s a b ref x w :
+  kv_ok kv p -> (S s < length kv)%nat -> kn kv s <= a -> a < b -> b <= kn kv (S s) ->
+  (forall xw, In xw ref -> - (1) < fst xw /\ fst xw < 1) ->
+  In (x, w) (gauss_cell ref a b) -> findspan kv p x = s.
+Proof.
+  intros Hok Hs Ha Hab Hb Href Hin.
+  unfold gauss_cell in Hin. apply in_map_iff in Hin. destruct Hin as [[xi wi] [E Hi]].
+  cbn [fst snd] in E. injection E as Ex Ew.
+  destruct (Href _ Hi) as [H1 H2]. cbn [fst] in H1, H2.
+  destruct (node_inside a b xi Hab H1 H2) as [L U].
+  assert (Hx : half * (b - a) * xi + half * (a + b) = x) by (rewrite <- Ex; ring).
+  rewrite Hx in L, U.
+  pose proof (ok_sorted _ _ Hok) as Hsort.
+  symmetry. apply findspan_unique_l; try assumption.
+  - eapply Qcle_trans; [|apply Qclt_le_weak; eapply Qcle_lt_trans; [exact Ha|exact L]].
+    apply Hsort; lia.
+  - eapply Qclt_le_trans; [exact U|]. eapply Qcle_trans; [exact Hb|]. apply Hsort; lia.
+  - apply Qclt_le_weak. eapply Qcle_lt_trans; [exact Ha|exact L].
+  - eapply Qclt_le_trans; [exact U|exact Hb].
+Qed.
+
+(* first_active_correct: for every open knot vector (any multiplicities), every reference rule
+   with nodes in (-1,1) and every mesh cell k, the index first_active(mesh_span_indices[k]) used
+   by _create_coo_1d_from_kv is the first active function at EVERY quadrature node of that cell *)
+Lemma first_active_correct_l kv p ref k x w :
+  kv_ok kv p ->
+  (forall xw, In xw ref -> - (1) < fst xw /\ fst xw < 1) ->
+  (k < numspans kv)%nat ->
+  In (x, w) (gauss_cell ref (nth k (mesh kv) 0) (nth (S k) (mesh kv) 0)) ->
+  findspan kv p x = nth k (span_indices kv) 0%nat /\
+  first_active_at kv p x = first_active p (nth k (span_indices kv) 0%nat).
+Proof.
+  intros Hok Href Hk Hin.
+  assert (Hne : kv <> []). { intro E. subst kv. destruct Hok as [L _ _ _ _]. cbn in L. lia. }
+  unfold numspans in Hk. rewrite (length_mesh_spans kv 0 Hne) in Hk. cbn [Nat.sub] in Hk. rewrite Nat.sub_0_r in Hk.
+  destruct (mesh_span_l kv 0 k Hk) as [H1 [H2 [H3 [H4 _]]]]. cbn zeta in *.
+  fold (span_indices kv) in *. rewrite Nat.sub_0_r in *.
+  set (s := nth k (span_indices kv) 0%nat) in *.
+  assert (Hf : findspan kv p x = s).
+  { eapply findspan_in_cell; try eassumption.
+    - rewrite H1. apply Qcle_refl.
+    - rewrite H1, H2. pose proof (ok_sorted _ _ Hok s (S s) ltac:(lia) H4) as Hle.
+      destruct (Qcle_lt_or_eq _ _ Hle) as [L|E]; [exact L|]. exfalso. apply H3. exact E.
+    - rewrite H2. apply Qcle_refl. }
+  split; [exact Hf|]. unfold first_active_at, first_active. rewrite Hf. reflexivity.
+Qed.
+
+(* two-space routine: on a quadrature cell that lies inside one knot span of kv, the first
+   active function found at the FIRST node (q[0][::nqp]) is the one at every node of the cell *)
+Lemma asym_first_active_l kv p s a b ref x w x0 w0 :
+  kv_ok kv p -> (S s < length kv)%nat -> kn kv s <= a -> a < b -> b <= kn kv (S s) ->
+  (forall xw, In xw ref -> - (1) < fst xw /\ fst xw < 1) ->
+  In (x0, w0) (gauss_cell ref a b) -> In (x, w) (gauss_cell ref a b) ->
+  first_active_at kv p x = first_active_at kv p x0 /\ first_active_at kv p x = (s - p)%nat.
+Proof.
+  intros Hok Hs Ha Hab Hb Href H0 H1. unfold first_active_at.
+  rewrite (findspan_in_cell kv p s a b ref x w Hok Hs Ha Hab Hb Href H1).
+  rewrite (findspan_in_cell kv p s a b ref x0 w0 Hok Hs Ha Hab Hb Href H0). split; reflexivity.
+Qed.
+
+
+(* the value of the global basis function j (dense collocation row) at a node of cell k is the
+   element-local value the assembler places at offset j - first_active(span k), zero elsewhere *)
+Lemma biform_1d_entry_partial_l kv p ref k x w :
+  kv_ok kv p ->
+  (forall xw, In xw ref -> - (1) < fst xw /\ fst xw < 1) ->
+  (k < numspans kv)%nat ->
+  In (x, w) (gauss_cell ref (nth k (mesh kv) 0) (nth (S k) (mesh kv) 0)) ->
+  forall j d, (j < numdofs kv p)%nat ->
+    nth j (colloc_row kv p d x) 0 =
+    if ((first_active p (nth k (span_indices kv) 0%nat) <=? j) && (j <=? first_active p (nth k (span_indices kv) 0%nat) + p))%nat
+    then nth (j - first_active p (nth k (span_indices kv) 0%nat)) (nth d (active_deriv kv p x d) []) 0
+    else 0.
+Proof.
+  intros Hok Href Hk Hin j d Hj.
+  destruct (first_active_correct_l kv p ref k x w Hok Href Hk Hin) as [_ Hfa].
+  unfold colloc_row. rewrite Hfa.
+  set (fa := first_active p (nth k (span_indices kv) 0%nat)).
+  set (f := fun j0 : nat => if ((fa <=? j0) && (j0 <=? fa + p))%nat
+                            then nth (j0 - fa) (nth d (active_deriv kv p x d) []) 0 else 0).
+  rewrite (nth_indep _ 0 (f 0%nat)) by (rewrite map_length, seq_length; exact Hj).
+  rewrite map_nth. rewrite seq_nth by exact Hj. reflexivity.
+Qed.
+
+(* ------------------------------------------------------------------ *)
+(* Part C.  closed-form determinants and inverses *)
+
+Lemma inv2_right_l a b c d : det2 a b c d <> 0 ->
+  let Y := inv2 a b c d in
+  a * mget Y 0 0 + b * mget Y 1 0 = 1 /\ a * mget Y 0 1 + b * mget Y 1 1 = 0 /\
+  c * mget Y 0 0 + d * mget Y 1 0 = 0 /\ c * mget Y 0 1 + d * mget Y 1 1 = 1.
+Proof. unfold det2. intros H. cbn. repeat split; field; exact H. Qed.
+
+Lemma inv2_left_l a b c d : det2 a b c d <> 0 ->
+  let Y := inv2 a b c d in
+  mget Y 0 0 * a + mget Y 0 1 * c = 1 /\ mget Y 0 0 * b + mget Y 0 1 * d = 0 /\
+  mget Y 1 0 * a + mget Y 1 1 * c = 0 /\ mget Y 1 0 * b + mget Y 1 1 * d = 1.
+Proof. unfold det2. intros H. cbn. repeat split; field; exact H. Qed.
+
+Lemma det2_mul_l a b c d a' b' c' d' :
+  det2 (a * a' + b * c') (a * b' + b * d') (c * a' + d * c') (c * b' + d * d') = det2 a b c d * det2 a' b' c' d'.
+Proof. unfold det2. ring. Qed.
+
+Section Inv3.
+  Variables x00 x01 x02 x10 x11 x12 x20 x21 x22 : Qc.
+  Let X := [[x00; x01; x02]; [x10; x11; x12]; [x20; x21; x22]].
+  Let Y := inv3 x00 x01 x02 x10 x11 x12 x20 x21 x22.
+  Definition delta (i j : nat) : Qc := if Nat.eqb i j then 1 else 0.
+  Definition mm3 (A B : list (list Qc)) (i j : nat) : Qc :=
+    mget A i 0 * mget B 0 j + mget A i 1 * mget B 1 j + mget A i 2 * mget B 2 j.
+
+  Lemma inv3_right_l : det3 x00 x01 x02 x10 x11 x12 x20 x21 x22 <> 0 ->
+    forall i j, (i < 3)%nat -> (j < 3)%nat -> mm3 X Y i j = delta i j.
+  Proof.
+    intros H i j Hi Hj. unfold det3 in H.
+    destruct i as [|[|[|i]]]; try lia; destruct j as [|[|[|j]]]; try lia;
+      unfold mm3, X, Y, inv3, det3, delta, mget; cbn [nth Nat.eqb]; field; exact H.
+  Qed.
+
+  Lemma inv3_left_l : det3 x00 x01 x02 x10 x11 x12 x20 x21 x22 <> 0 ->
+    forall i j, (i < 3)%nat -> (j < 3)%nat -> mm3 Y X i j = delta i j.
+  Proof.
+    intros H i j Hi Hj. unfold det3 in H.
+    destruct i as [|[|[|i]]]; try lia; destruct j as [|[|[|j]]]; try lia;
+      unfold mm3, X, Y, inv3, det3, delta, mget; cbn [nth Nat.eqb]; field; exact H.
+  Qed.
+End Inv3.
+
+Lemma det3_mul_l a00 a01 a02 a10 a11 a12 a20 a21 a22 b00 b01 b02 b10 b11 b12 b20 b21 b22 :
+  det3 (a00*b00+a01*b10+a02*b20) (a00*b01+a01*b11+a02*b21) (a00*b02+a01*b12+a02*b22)
+       (a10*b00+a11*b10+a12*b20) (a10*b01+a11*b11+a12*b21) (a10*b02+a11*b12+a12*b22)
+       (a20*b00+a21*b10+a22*b20) (a20*b01+a21*b11+a22*b21) (a20*b02+a21*b12+a22*b22)
+  = det3 a00 a01 a02 a10 a11 a12 a20 a21 a22 * det3 b00 b01 b02 b10 b11 b12 b20 b21 b22.
+Proof. unfold det3. ring. Qed.
+
+Lemma det3_triangular_l a b c d e f : det3 a b c 0 d e 0 0 f = a * d * f.
+Proof. unfold det3. ring. Qed.
